@@ -680,6 +680,17 @@ func (s *BaseNodeService) processSignatureProposal(message storage.Message) erro
 }
 
 func (s *BaseNodeService) processMessage(message storage.Message) (*types.Operation, error) {
+	// only a proposal can open a new round, any other message must belong to an existing one
+	if fsm.Event(message.Event) != spf.EventInitProposal {
+		roundExist, err := s.fsmService.IsExist(message.DkgRoundID)
+		if err != nil {
+			return nil, fmt.Errorf("failed to check if DKG round exists: %w", err)
+		}
+		if !roundExist {
+			return nil, fmt.Errorf("unknown DKG round %s", message.DkgRoundID)
+		}
+	}
+
 	fsmInstance, err := s.fsmService.GetFSMInstance(message.DkgRoundID, true)
 	if err != nil {
 		return nil, fmt.Errorf("failed to getFSMInstance: %w", err)
